@@ -76,8 +76,16 @@ Rep(c, n) == [k \in 1..n |-> c]
 ContainsSeq(h, n) == \E k \in 1..(Len(h) - Len(n) + 1) : SubSeq(h, k, k + Len(n) - 1) = n
 RECURSIVE BracketLevel(_, _)
 BracketLevel(s, i) == IF ContainsSeq(s, <<93>> \o Rep(61, i) \o <<93>>) THEN BracketLevel(s, i + 1) ELSE i
+\* the level chosen by write_long_bracket: the first level whose closing bracket first occurs in `value ++ closer` at
+\* the very end (repaired finding F-C13-a).  DEV_LONG_BRACKET=1 restores the old choice (closer not INSIDE the value,
+\* one more when the value ends with `]`) for demonstrations
+DevLongBracket == "DEV_LONG_BRACKET" \in DOMAIN IOEnv /\ IOEnv.DEV_LONG_BRACKET = "1"
+FirstAt(h, n) == CHOOSE k \in 1..(Len(h) - Len(n) + 1) : SubSeq(h, k, k + Len(n) - 1) = n /\ \A j \in 1..(k - 1) : SubSeq(h, j, j + Len(n) - 1) # n
+RECURSIVE SafeLevel(_, _)
+SafeLevel(s, i) == LET c == <<93>> \o Rep(61, i) \o <<93>> IN IF FirstAt(s \o c, c) = Len(s) + 1 THEN i ELSE SafeLevel(s, i + 1)
+LevelOf(s) == IF DevLongBracket THEN BracketLevel(s, IF s[Len(s)] = 93 THEN 1 ELSE 0) ELSE SafeLevel(s, 0)
 WriteLongBracket(s) ==
-  LET i == BracketLevel(s, IF s[Len(s)] = 93 THEN 1 ELSE 0) IN
+  LET i == LevelOf(s) IN
   <<91>> \o Rep(61, i) \o <<91>> \o (IF s[1] = 10 THEN <<10>> ELSE <<>>) \o s \o <<93>> \o Rep(61, i) \o <<93>>
 CountNl(s) == Len(SelectSeq(s, LAMBDA c : c = 10))
 UsesLongBracket(s) ==
@@ -94,7 +102,7 @@ WriteString(s) ==
 \* ------------------------------------------------------------------ the theorem
 ReadsBackAs(text, s, luau) == LET r == Lex(text, luau) IN r.ok /\ Len(r.toks) = 1 /\ r.toks[1].k = "str" /\ r.toks[1].v = s
 RoundTrip(s) == ReadsBackAs(WriteString(s), s, TRUE) /\ (NeedsUnicodeEscape(s) \/ ReadsBackAs(WriteString(s), s, FALSE))
-\* open finding F-C13-a: the long-bracket level is chosen so that `]=*]` of that level does not occur INSIDE the value
+\* REPAIRED finding F-C13-a (where the old writer, DEV_LONG_BRACKET=1, fails): the long-bracket level was chosen so that `]=*]` of that level does not occur INSIDE the value
 \* (and one more when the value ends with `]`), but a value ending with `]` followed by exactly `level` `=` signs forms
 \* the closing bracket together with the first `]` of the real one
 Trigger_F_C13_a(s) ==
